@@ -960,6 +960,8 @@ func (in *interp) flatten(v value, sig *strings.Builder, out *[]*Term, depth int
 			in.flatten(e, sig, out, depth+1)
 		}
 		sig.WriteString(")")
+	case *schan:
+		fmt.Fprintf(sig, "ch%p;", x) // a channel is identified by its identity
 	case *ssa.Function, *closure:
 		sig.WriteString("fn;")
 	case opaque:
